@@ -57,10 +57,11 @@ func verifOffsetOf(z string) (int, bool) {
 	return v, true
 }
 
-// verifMicros: an arbitrary instant in microseconds within about +-130 years of the epoch (the conversions are
-// offset arithmetic on the count; no calendar computation is involved).
+// verifMicros: an arbitrary instant in microseconds between the years 1 and 9999 - what a FHIR date can say, far
+// beyond the +-292 years a nanosecond count holds (the conversions are offset arithmetic on the count; no calendar
+// computation is involved).
 func verifMicros(label string) int64 {
-	s := int64(verifrt.NondetIntRange(label+".s", -4102444800, 4102444800))
+	s := int64(verifrt.NondetIntRange(label+".s", -62135596800, 253402300799))
 	return s*1000000 + int64(verifrt.NondetIntRange(label+".us", 0, 999999))
 }
 
